@@ -383,6 +383,9 @@ func init() {
 	tp := "github.com/go-task/task/v3/internal/templater."
 	more := map[string]intrinsic{
 		tp + "ReplaceWithExtra": templaterReplace,
+		"github.com/go-task/slim-sprig/v3.TxtFuncMap": func(i *Interp, caller *frame, _ *ssa.Function, a []value) value {
+			return &mapV{} // the sprig table is not modelled: its functions are engine faults in templates
+		},
 		tp + "ResolveRef": func(i *Interp, caller *frame, _ *ssa.Function, a []value) value {
 			ref := a[0].(*Term)
 			if !ref.Const {
@@ -413,7 +416,8 @@ func init() {
 // not encoded. Contract of the stub: every string reachable in the value is rendered by
 // replacing each "{{.NAME}}" with the value of NAME (extra first, then the cache's Vars;
 // missing names render empty). Any other template syntax in a harness Taskfile is an engine
-// fault; symbolic strings are template-free by harness construction and returned unchanged.
+// fault; symbolic strings are template-free by harness construction and returned unchanged
+// (unless __tmplsym=1, see templateRender).
 
 func (i *Interp) templateLookup(caller *frame, cache value, extra *mapV, name string) (iface, bool) {
 	if extra != nil {
@@ -445,6 +449,19 @@ func (i *Interp) templateLookup(caller *frame, cache value, extra *mapV, name st
 
 func (i *Interp) templateRender(caller *frame, s *Term, cache value, extra *mapV) *Term {
 	if !s.Const {
+		// Symbolic text. By default harnesses keep symbolic strings template-free (stated
+		// assumption). With __tmplsym the text reaching the template engine is decided by the
+		// solver: when it can contain an action opener the engine interprets it, and the
+		// model over-approximates the rendering by an unconstrained string (the native replay
+		// runs the real engine on the solver's bytes).
+		if i.params["__tmplsym"] == 1 && i.branch(StrContains(s, TStr("{{"))) {
+			where := ""
+			for c, n := caller, 0; c != nil && n < 3; c, n = c.caller, n+1 {
+				where += " <- " + c.fn.Name()
+			}
+			i.notes = append(i.notes, "template engine interprets symbolic text "+termShort(s)+where)
+			return i.fresh("tmpl$rendered", SStr, 0)
+		}
 		return s
 	}
 	if !strings.Contains(s.S, "{{") {
@@ -465,8 +482,21 @@ func (i *Interp) templateRender(caller *frame, s *Term, cache value, extra *mapV
 		}
 		action := strings.TrimSpace(rest[k+2 : k+e])
 		rest = rest[k+e+2:]
+		// "fn .NAME" and ".NAME | fn": a one-argument function of go-task's own table
+		// (funcs.go, executed from its source), applied to a variable
+		fnName := ""
+		if f := strings.Fields(action); len(f) == 2 && !strings.HasPrefix(f[0], ".") && strings.HasPrefix(f[1], ".") {
+			fnName, action = f[0], f[1]
+		} else if len(f) == 3 && f[1] == "|" && strings.HasPrefix(f[0], ".") {
+			fnName, action = f[2], f[0]
+		}
 		if !strings.HasPrefix(action, ".") || strings.ContainsAny(action, " |()") {
 			fault("templater model: unsupported template action %q", action)
+		}
+		if fnName != "" {
+			v, ok := i.templateLookup(caller, cache, extra, action[1:])
+			out = StrConcat(out, i.templateCallFunc(caller, cache, fnName, v, ok))
+			continue
 		}
 		path := strings.Split(action[1:], ".")
 		v, ok := i.templateLookup(caller, cache, extra, path[0])
@@ -493,6 +523,54 @@ func (i *Interp) templateRender(caller *frame, s *Term, cache value, extra *mapV
 		}
 	}
 	return out
+}
+
+// templateCallFunc applies an entry of templater.templateFuncs (built by the package's own
+// init() from funcs.go) to one variable value. A missing variable, a non-string value, an
+// unknown function or an error result follow text/template: rendering fails, which the
+// templater records in cache.err, returning the value it was given unchanged.
+func (i *Interp) templateCallFunc(caller *frame, cache value, fnName string, arg iface, found bool) *Term {
+	pkg := i.prog.ImportedPackage(modulePath + "/internal/templater")
+	if pkg == nil {
+		fault("templater model: package not loaded")
+	}
+	g, _ := pkg.Members["templateFuncs"].(*ssa.Global)
+	if g == nil {
+		fault("templater model: templateFuncs not found")
+	}
+	table, _ := (*i.global(g)).(*mapV)
+	var fn value
+	if table != nil {
+		for k := range table.keys {
+			if kt, ok := table.keys[k].(*Term); ok && kt.Const && kt.S == fnName {
+				if f, isI := table.vals[k].(iface); isI {
+					fn = f.v
+				}
+			}
+		}
+	}
+	if fn == nil {
+		fault("templater model: template function %q is not in go-task's own table", fnName)
+	}
+	fail := func(msg string) *Term {
+		panic(tmplFail{mkError(TStr("template: " + msg)).(iface)})
+	}
+	s, isStr := arg.v.(*Term)
+	if !found || arg.t == nil || !isStr || s.Sort != SStr {
+		return fail("wrong type for value; expected string")
+	}
+	r := i.call(caller, 0, fn, []value{s})
+	if t, ok := r.(tuple); ok {
+		if e, isI := t[len(t)-1].(iface); isI && e.t != nil {
+			panic(tmplFail{e})
+		}
+		r = t[0]
+	}
+	if rt, ok := r.(*Term); ok && rt.Sort == SStr {
+		return rt
+	}
+	fault("templater model: template function %q returns an unsupported value", fnName)
+	return nil
 }
 
 func (i *Interp) templateTraverse(caller *frame, v value, cache value, extra *mapV) value {
@@ -549,5 +627,22 @@ func templaterReplace(i *Interp, caller *frame, _ *ssa.Function, a []value) valu
 		return a[0] // cache.err != nil: do nothing
 	}
 	extra, _ := a[2].(*mapV)
-	return i.templateTraverse(caller, a[0], a[1], extra)
+	var out value
+	func() {
+		defer func() {
+			if r := recover(); r != nil {
+				tf, ok := r.(tmplFail)
+				if !ok {
+					panic(r)
+				}
+				(*cp).(structure)[2] = tf.err
+				out = a[0]
+			}
+		}()
+		out = i.templateTraverse(caller, a[0], a[1], extra)
+	}()
+	return out
 }
+
+// tmplFail unwinds a rendering that text/template would abort with an error.
+type tmplFail struct{ err iface }
